@@ -377,6 +377,36 @@ func runLit(c *fw.Ctx, h *holder) {
 		c.Count("lit_small_strings_exhaustive", 1)
 		one(s, forms)
 	}
+	// two-byte line ends inside a literal that straddle a read boundary of the loader (it reads the chunk in
+	// 4096-byte fills): the pair must still be one line end. The first byte of the pair is put at every offset
+	// from 4 before to 4 behind the 4096th and 8192nd byte, in a continued short string, inside a long
+	// bracket and as the skipped first line end of a long bracket.
+	bidx := 0
+	for _, boundary := range []int{4096, 8192, 12288} {
+		for shift := -5; shift <= 4; shift++ {
+			for _, pair := range []string{"\r\n", "\n\r"} {
+				for _, f := range []struct {
+					name, pre, post, want string
+				}{
+					{"short-continued", "\"a\\", "b\"", "a\nb"},
+					{"long-inner", "[[a", "b]]", "a\nb"},
+					{"long-inner-level2", "[==[a", "b]==]", "a\nb"},
+					{"long-lead", "[[", "ab]]", "ab"},
+					{"short-continued-twice", "'\\" + pair + "a\\", "b'", "\na\nb"},
+				} {
+					bidx++
+					if !c.Mine(bidx) {
+						continue
+					}
+					head := "return "
+					pad := boundary + shift - len(head) - len(f.pre) - 3 // "--" + pad + "\n"
+					src := "--" + strings.Repeat("x", pad) + "\n" + head + f.pre + pair + f.post
+					c.Count("lit_pair_across_read_boundary", 1)
+					one([]byte(f.want), []rendering{{src: []byte(src), form: fmt.Sprintf("boundary:%s:%d%+d:%q", f.name, boundary, shift, pair)}})
+				}
+			}
+		}
+	}
 	n := c.Share(c.Pick(20000, 1500000))
 	for i := 0; i < n; i++ {
 		s := randomBytes(c.R)
